@@ -41,13 +41,16 @@ GNext(g, ev) ==
   CASE o.op = "offer"    -> [g EXCEPT !.to = o.new, !.until = o.until, !.live = TRUE,
                                        !.lin = IF g.lin >= ev.now THEN MaxOf(g.lin, o.until) ELSE o.until]
     [] o.op = "cancel"   -> [g EXCEPT !.live = FALSE, !.lin = 0]
-    [] o.op = "accept"   -> [g EXCEPT !.holder = g.to, !.live = FALSE, !.lin = 0]
-    [] o.op = "renounce" -> [g EXCEPT !.holder = NoOne]
+    \* (an acceptance with no offer on record, or a renouncement while one is pending, is a violation reported by the
+    \*  C07 monitors; the ghost keeps to the specified course: nobody gains control that way, and giving control up ends
+    \*  every hand-over)
+    [] o.op = "accept"   -> IF g.live THEN [g EXCEPT !.holder = g.to, !.live = FALSE, !.lin = 0] ELSE g
+    [] o.op = "renounce" -> [g EXCEPT !.holder = NoOne, !.live = FALSE, !.lin = 0]
     [] OTHER             -> g
 
 ExpectedHolder(g, ev) ==
   IF ev.res # "ok" THEN g.holder
-  ELSE CASE ev.op.op = "accept"   -> g.to
+  ELSE CASE ev.op.op = "accept"   -> IF g.live THEN g.to ELSE g.holder
          [] ev.op.op = "renounce" -> NoOne
          [] OTHER                 -> g.holder
 
